@@ -182,7 +182,10 @@ class World:
 
     def index(self, port_or_uri):
         if isinstance(port_or_uri, str):
-            port_or_uri = int(port_or_uri.split('://')[-1])
+            try:
+                port_or_uri = int(port_or_uri.split('://')[-1])
+            except ValueError:
+                return 0
         return PORTS.index(port_or_uri) + 1 if port_or_uri in PORTS else 0
 
     def mygen(self):
